@@ -646,10 +646,147 @@ def wrote_own_setattr(r, all_attrs):
     return False
 
 
+def _observe(r, mod, orig, new, ns0, oid, cells, probes, own, attr_names, wrote, mro, hook_raw):
+    base_slot_names = []
+    for bc in new.__mro__[1:-1]:
+        if "__slots__" in bc.__dict__:
+            base_slot_names += _norm_slots(bc.__dict__["__slots__"])
+    keyset = set(ns0) | set(new.__dict__) | {"__slots__", "__attrs_own_setattr__", "__setattr__", "__getattr__",
+                                             "__qualname__", "__weakref__", "__dict__"} | set(base_slot_names)
+    keyset -= ATTRS_GEN
+    if wrote:
+        keyset -= {"__setattr__", "__attrs_own_setattr__"}
+    keys = sorted(keyset)
+
+    def seen_id(k):
+        if k not in new.__dict__:
+            return None
+        o = new.__dict__[k]
+        if k == "__attrs_own_setattr__":
+            return 0 if o is False else 9
+        if k == "__setattr__" and o is object.__setattr__:
+            return 1
+        if k == "__slots__":
+            return 2 if isinstance(o, tuple) else 9
+        if isinstance(o, types.MemberDescriptorType) and o.__objclass__ is new:
+            return 5
+        if k in ("__weakref__", "__dict__") and isinstance(o, types.GetSetDescriptorType) and o.__objclass__ is new:
+            # in __slots__: asked for by attrs; otherwise CPython's layout rule for secondary bases
+            # added it on its own (not part of the namespace transformation)
+            return 6 if k in new.__slots__ else None
+        if id(o) in oid:
+            return oid[id(o)]
+        if k == "__getattr__" and isinstance(o, types.FunctionType) and "cached_properties" in (o.__code__.co_varnames):
+            return 4
+        return 9
+
+    ns_seen = [seen_id(k) for k in keys]
+    same = [new.__name__ == orig.__name__, new.__qualname__ == orig.__qualname__, new.__module__ == orig.__module__,
+            new.__doc__ == orig.__doc__, new.__bases__ == orig.__bases__, type(new) is type(orig)]
+    views = [_view(_run_probe(new, pd, mod, r["frozen"]), new, orig) for pd in probes]
+    inst = new()
+    has_dict = hasattr(inst, "__dict__")
+    try:
+        inst.zz_unknown_attribute = 1
+        rejects = False
+    except AttributeError:
+        rejects = True
+    try:
+        weakref.ref(inst)
+        wr = True
+    except TypeError:
+        wr = False
+    slotcount = []
+    for f in own:
+        slotcount.append(sum(1 for c in new.__mro__ if f in _norm_slots(c.__dict__.get("__slots__", ()))))
+    # access sequences
+    mod.COUNT.clear()
+    insts = [new(), new()]
+    idx = {id(x): i for i, x in enumerate(insts)}
+    ops_seen, ops_js = [], []
+    for i, op, n, k in r["ops"]:
+        try:
+            if op == "get":
+                v = getattr(insts[i], n)
+                if isinstance(v, tuple) and v and v[0] == "comp":
+                    t, js = "(RVal (VComp %s %d %d))" % (q(v[1]), idx.get(v[2], 77), v[3]), ["comp", v[1], idx.get(v[2], 77), v[3]]
+                elif isinstance(v, tuple) and v and v[0] == "dyn":
+                    t, js = "(RVal (VDyn %s %s))" % (q(v[1]), q(v[2])), list(v)
+                elif isinstance(v, int) and not isinstance(v, bool):
+                    t, js = "(RVal (VTok %d))" % v, v
+                else:
+                    t, js = "(RVal (VDyn %s %s))" % (q("UNEXPECTED"), q(type(v).__name__)), repr(v)
+            elif op == "del":
+                delattr(insts[i], n)
+                t, js = "RDone", "done"
+            else:
+                setattr(insts[i], n, k)
+                t, js = "RDone", "done"
+        except AttributeError:
+            t, js = "RAttrErr", "AttributeError"
+        except Exception as e:
+            t, js = "(RVal (VDyn %s %s))" % (q("UNEXPECTED"), q(type(e).__name__)), type(e).__name__
+        ops_seen.append(t)
+        ops_js.append(js)
+    hook_seen = [(c is new, [_view(x, new, orig) for x in raws]) for c, raws in hook_raw]
+    seen_t = "(Build_body_obs None %s %s %s %s %s %s %s %s %s %s)" % (
+        lst(b(x) for x in same), lst(opt(x, str) for x in ns_seen), lst(q(n) for n in new.__slots__), lst(views),
+        b(has_dict), b(rejects), b(wr), lst(str(x) for x in slotcount), lst(ops_seen),
+        lst("(%s, %s)" % (b(f), lst(vs)) for f, vs in hook_seen))
+    seen = {"same(name,qualname,module,doc,bases,metaclass)": same, "namespace": dict(zip(keys, ns_seen)),
+            "__slots__": list(new.__slots__), "views": views, "has_dict": has_dict, "rejects_unknown": rejects,
+            "weakrefable": wr, "slots_per_own_field": slotcount, "ops": ops_js,
+            "hook_calls": [[f, vs] for f, vs in hook_seen]}
+    # ---- python replica of post_ok (which clauses fail) -------------------------------
+    failed = []
+    if not all(same):
+        failed.append("same")
+    has_cached = any(isinstance(v, functools.cached_property) and k not in attr_names for k, v in ns0.items())
+    for k, sid in zip(keys, ns_seen):
+        if k in ns0 and k not in attr_names and k not in ("__dict__", "__weakref__"):
+            kind = _classify(ns0[k], cells, mod.Desc)
+            if kind.startswith(("(KFunc", "(KClassM", "(KStaticM", "(KProp", "(KDescr", "KPlain")):
+                if (has_cached and k == "__getattr__") or k == "__slots__":
+                    continue
+                if sid != oid[id(ns0[k])]:
+                    failed.append("survivor:" + k)
+    cov = [pd["kind"] in ("func", "cm", "sm", "prop", "cached", "getattr", "lambda") for pd in probes]
+    if any(c and v != "VwNew" for c, v in zip(cov, views)):
+        failed.append("views")
+    base_dict = any("__dict__" in bc.__dict__ for bc in mro)
+    if has_dict != base_dict:
+        failed.append("dict")
+    if not (has_dict or rejects):
+        failed.append("rejects")
+    inh_wr = any(bc.__dict__.get("__weakref__", None) is not None for bc in mro)
+    if wr != (r["weakref_slot"] or inh_wr):
+        failed.append("weakref")
+    if any(c != 1 for c in slotcount):
+        failed.append("one-slot")
+    if all(o[1] == "get" for o in r["ops"]):
+        own_cached = [k for k, v in ns0.items() if isinstance(v, functools.cached_property) and k not in attr_names]
+        for (i, op, n, k), js in zip(r["ops"], ops_js):
+            if n in own_cached and js != ["comp", n, i, 0]:
+                failed.append("cached-once")
+                break
+    hook_expected = any("__attrs_init_subclass__" in bc.__dict__ for bc in mro) and "__attrs_init_subclass__" not in ns0
+    if hook_expected:
+        if not (len(hook_seen) == 1 and hook_seen[0][0] and not any(c and v != "VwNew" for c, v in zip(cov, hook_seen[0][1]))):
+            failed.append("hook")
+    post = not failed
+    return seen_t, seen, keys, base_slot_names, post, failed
+
+
 def run_body(r):
     """Exec the body, read the model's input off the original class, decorate, observe."""
     src = source_of(r)
-    mod = _fresh_module(src)
+    try:
+        mod = _fresh_module(src)
+    except Exception as e:
+        # a base class of the generated module could not be built: nothing the model could be asked about
+        what = "body-module-failed:" + type(e).__name__
+        return [Case("(CMeta [(%s, 0%%Z, 1%%Z)])" % q(what), r, {"error": what, "detail": str(e)[:300]},
+                     sig={"layer": "model", "kind": "module-exec-failed"}, key=json.dumps(r, sort_keys=True))]
     try:
         return _run_body(r, mod)
     finally:
@@ -741,6 +878,12 @@ def _run_body(r, mod):
     probes_t = lst("(Build_probe %d %s %s)" % (c if c is not None else 999, "UClass" if pd["use"] == "class" else "USuper",
                                               b(pd["kind"] in ("func", "cm", "sm", "prop", "cached", "getattr", "lambda")))
                    for pd, c in zip(probes, probe_cells))
+    if err is None:
+        try:
+            obs = _observe(r, mod, orig, new, ns0, oid, cells, probes, own, attr_names, wrote, mro, hook_raw)
+        except Exception as e:
+            # the new class exists but cannot even be observed (e.g. instances cannot be created)
+            err = "Observe:" + type(e).__name__
     if err is not None:
         seen_t = ("(Build_body_obs (Some %s) [] [] [] [] false false false [] [] [])" % q(err))
         seen = {"error": err}
@@ -748,133 +891,7 @@ def _run_body(r, mod):
         post = False
         failed = ["build:" + err]
     else:
-        base_slot_names = []
-        for bc in new.__mro__[1:-1]:
-            if "__slots__" in bc.__dict__:
-                base_slot_names += _norm_slots(bc.__dict__["__slots__"])
-        keyset = set(ns0) | set(new.__dict__) | {"__slots__", "__attrs_own_setattr__", "__setattr__", "__getattr__",
-                                                 "__qualname__", "__weakref__", "__dict__"} | set(base_slot_names)
-        keyset -= ATTRS_GEN
-        if wrote:
-            keyset -= {"__setattr__", "__attrs_own_setattr__"}
-        keys = sorted(keyset)
-
-        def seen_id(k):
-            if k not in new.__dict__:
-                return None
-            o = new.__dict__[k]
-            if k == "__attrs_own_setattr__":
-                return 0 if o is False else 9
-            if k == "__setattr__" and o is object.__setattr__:
-                return 1
-            if k == "__slots__":
-                return 2 if isinstance(o, tuple) else 9
-            if isinstance(o, types.MemberDescriptorType) and o.__objclass__ is new:
-                return 5
-            if k in ("__weakref__", "__dict__") and isinstance(o, types.GetSetDescriptorType) and o.__objclass__ is new:
-                # in __slots__: asked for by attrs; otherwise CPython's layout rule for secondary bases
-                # added it on its own (not part of the namespace transformation)
-                return 6 if k in new.__slots__ else None
-            if id(o) in oid:
-                return oid[id(o)]
-            if k == "__getattr__" and isinstance(o, types.FunctionType) and "cached_properties" in (o.__code__.co_varnames):
-                return 4
-            return 9
-
-        ns_seen = [seen_id(k) for k in keys]
-        same = [new.__name__ == orig.__name__, new.__qualname__ == orig.__qualname__, new.__module__ == orig.__module__,
-                new.__doc__ == orig.__doc__, new.__bases__ == orig.__bases__, type(new) is type(orig)]
-        views = [_view(_run_probe(new, pd, mod, r["frozen"]), new, orig) for pd in probes]
-        inst = new()
-        has_dict = hasattr(inst, "__dict__")
-        try:
-            inst.zz_unknown_attribute = 1
-            rejects = False
-        except AttributeError:
-            rejects = True
-        try:
-            weakref.ref(inst)
-            wr = True
-        except TypeError:
-            wr = False
-        slotcount = []
-        for f in own:
-            slotcount.append(sum(1 for c in new.__mro__ if f in _norm_slots(c.__dict__.get("__slots__", ()))))
-        # access sequences
-        mod.COUNT.clear()
-        insts = [new(), new()]
-        idx = {id(x): i for i, x in enumerate(insts)}
-        ops_seen, ops_js = [], []
-        for i, op, n, k in r["ops"]:
-            try:
-                if op == "get":
-                    v = getattr(insts[i], n)
-                    if isinstance(v, tuple) and v and v[0] == "comp":
-                        t, js = "(RVal (VComp %s %d %d))" % (q(v[1]), idx.get(v[2], 77), v[3]), ["comp", v[1], idx.get(v[2], 77), v[3]]
-                    elif isinstance(v, tuple) and v and v[0] == "dyn":
-                        t, js = "(RVal (VDyn %s %s))" % (q(v[1]), q(v[2])), list(v)
-                    elif isinstance(v, int) and not isinstance(v, bool):
-                        t, js = "(RVal (VTok %d))" % v, v
-                    else:
-                        t, js = "(RVal (VDyn %s %s))" % (q("UNEXPECTED"), q(type(v).__name__)), repr(v)
-                elif op == "del":
-                    delattr(insts[i], n)
-                    t, js = "RDone", "done"
-                else:
-                    setattr(insts[i], n, k)
-                    t, js = "RDone", "done"
-            except AttributeError:
-                t, js = "RAttrErr", "AttributeError"
-            except Exception as e:
-                t, js = "(RVal (VDyn %s %s))" % (q("UNEXPECTED"), q(type(e).__name__)), type(e).__name__
-            ops_seen.append(t)
-            ops_js.append(js)
-        hook_seen = [(c is new, [_view(x, new, orig) for x in raws]) for c, raws in hook_raw]
-        seen_t = "(Build_body_obs None %s %s %s %s %s %s %s %s %s %s)" % (
-            lst(b(x) for x in same), lst(opt(x, str) for x in ns_seen), lst(q(n) for n in new.__slots__), lst(views),
-            b(has_dict), b(rejects), b(wr), lst(str(x) for x in slotcount), lst(ops_seen),
-            lst("(%s, %s)" % (b(f), lst(vs)) for f, vs in hook_seen))
-        seen = {"same(name,qualname,module,doc,bases,metaclass)": same, "namespace": dict(zip(keys, ns_seen)),
-                "__slots__": list(new.__slots__), "views": views, "has_dict": has_dict, "rejects_unknown": rejects,
-                "weakrefable": wr, "slots_per_own_field": slotcount, "ops": ops_js,
-                "hook_calls": [[f, vs] for f, vs in hook_seen]}
-        # ---- python replica of post_ok (which clauses fail) -------------------------------
-        failed = []
-        if not all(same):
-            failed.append("same")
-        has_cached = any(isinstance(v, functools.cached_property) and k not in attr_names for k, v in ns0.items())
-        for k, sid in zip(keys, ns_seen):
-            if k in ns0 and k not in attr_names and k not in ("__dict__", "__weakref__"):
-                kind = _classify(ns0[k], cells, mod.Desc)
-                if kind.startswith(("(KFunc", "(KClassM", "(KStaticM", "(KProp", "(KDescr", "KPlain")):
-                    if (has_cached and k == "__getattr__") or k == "__slots__":
-                        continue
-                    if sid != oid[id(ns0[k])]:
-                        failed.append("survivor:" + k)
-        cov = [pd["kind"] in ("func", "cm", "sm", "prop", "cached", "getattr", "lambda") for pd in probes]
-        if any(c and v != "VwNew" for c, v in zip(cov, views)):
-            failed.append("views")
-        base_dict = any("__dict__" in bc.__dict__ for bc in mro)
-        if has_dict != base_dict:
-            failed.append("dict")
-        if not (has_dict or rejects):
-            failed.append("rejects")
-        inh_wr = any(bc.__dict__.get("__weakref__", None) is not None for bc in mro)
-        if wr != (r["weakref_slot"] or inh_wr):
-            failed.append("weakref")
-        if any(c != 1 for c in slotcount):
-            failed.append("one-slot")
-        if all(o[1] == "get" for o in r["ops"]):
-            own_cached = [k for k, v in ns0.items() if isinstance(v, functools.cached_property) and k not in attr_names]
-            for (i, op, n, k), js in zip(r["ops"], ops_js):
-                if n in own_cached and js != ["comp", n, i, 0]:
-                    failed.append("cached-once")
-                    break
-        hook_expected = any("__attrs_init_subclass__" in bc.__dict__ for bc in mro) and "__attrs_init_subclass__" not in ns0
-        if hook_expected:
-            if not (len(hook_seen) == 1 and hook_seen[0][0] and not any(c and v != "VwNew" for c, v in zip(cov, hook_seen[0][1]))):
-                failed.append("hook")
-        post = not failed
+        seen_t, seen, keys, base_slot_names, post, failed = obs
     body_fmt = "(Build_body_case %s %s %s %s %s %s %s %s %%s)" % (
         inp_t, lst(q(k) for k in keys), probes_t, b(r["frozen"]), lst(q(f) for f in own),
         lst(q(n) for n in base_slot_names), ops_t, seen_t)
@@ -888,6 +905,354 @@ def _run_body(r, mod):
         r2["family"] = "body-post"
         out.append(Case("(CPost %s)" % (body_fmt % "true"), r2, seen, sig=sig, nontrivial=nontrivial, key="post:" + key))
     return out
+
+
+# --------------------------------------------------------------------------------------
+# part B: metamorphic slots-vs-dict comparison of initgen specifications
+
+
+class OTok(g.Tok):
+    """Pool value: equality, ordering and hash by number (so that distinct constructions can be equal)."""
+    __slots__ = ()
+
+    def __eq__(self, other):
+        return self.n == other.n if isinstance(other, OTok) else NotImplemented
+
+    def __ne__(self, other):
+        return self.n != other.n if isinstance(other, OTok) else NotImplemented
+
+    def __lt__(self, other):
+        return self.n < other.n if isinstance(other, OTok) else NotImplemented
+
+    def __le__(self, other):
+        return self.n <= other.n if isinstance(other, OTok) else NotImplemented
+
+    def __gt__(self, other):
+        return self.n > other.n if isinstance(other, OTok) else NotImplemented
+
+    def __ge__(self, other):
+        return self.n >= other.n if isinstance(other, OTok) else NotImplemented
+
+    def __hash__(self):
+        return hash(("OTok", self.n))
+
+
+POOLV = [OTok(i) for i in range(4)]
+
+
+class _DecoProxy:
+    """Stands in for the attr / attrs module inside ClassUnderTest.build to pass extra decorator arguments."""
+
+    def __init__(self, mod, extra):
+        self._m, self._x = mod, extra
+
+    def __getattr__(self, n):
+        return getattr(self._m, n)
+
+    def s(self, *a, **kw):
+        kw.update(self._x.get("attrs", {}))
+        return self._m.s(*a, **kw)
+
+    def define(self, *a, **kw):
+        kw.update(self._x.get("define", {}))
+        return self._m.define(*a, **kw)
+
+    def make_class(self, name, d, **kw):
+        kw.update(self._x.get("attrs", {}))
+        return self._m.make_class(name, d, **kw)
+
+
+class CUT2(g.ClassUnderTest):
+    def __init__(self, spec, extra=None):
+        self.extra = extra
+        super().__init__(spec)
+
+    def build(self):
+        if not self.extra:
+            return super().build()
+        oa, oas = g.attr, g.attrs
+        g.attr, g.attrs = _DecoProxy(oa, self.extra), _DecoProxy(oas, self.extra)
+        try:
+            super().build()
+        finally:
+            g.attr, g.attrs = oa, oas
+
+
+class PlainOver:
+    """An undecorated class between two attrs classes of a chain."""
+
+    def __init__(self, base, uid, with_slots):
+        self.base = base
+        self.spec = base.spec
+        self.def_error = None
+        self.cls = type("P" + uid, (base.cls,), {"__slots__": ()} if with_slots else {})
+
+    frozen = property(lambda self: self.base.frozen)
+    is_exc_base = property(lambda self: self.base.is_exc_base)
+    field_names = property(lambda self: self.base.field_names)
+
+    def has_hook(self, which):
+        return self.base.has_hook(which)
+
+
+def _copy_spec(spec, base, slots):
+    s2 = {k: copy.deepcopy(v) for k, v in spec.items() if k not in ("base", "_named_sig")}
+    s2["base"] = base
+    s2["slots"] = slots
+    return s2
+
+
+def _fix_mandatory(spec):
+    for f in spec["fields"]:
+        if f["default"] is None and f["init"]:
+            f["kw_only"] = True
+
+
+def build_pair(rng):
+    """Returns (cutS, cutD, facts) - the same specification chain built with slots on / off at the
+    leaf ("leaf") or at every level ("chain")."""
+    variant = rng.choice(["leaf", "leaf", "chain"])
+    depth = rng.choice([1, 1, 2, 2, 3])
+    plain_between = depth >= 2 and rng.random() < 0.2
+    plain_slots = rng.random() < 0.5
+    legacy = rng.random() < 0.12
+    facts = {"variant": variant, "depth": depth, "plain_between": plain_between, "legacy_hash_false": False,
+             "k6_shape": False}
+    bS = bD = None
+    for level in range(depth):
+        leaf = level == depth - 1
+        uid = "%d" % (level + 1)
+        for _attempt in range(30):
+            spec = g.gen_class_spec(rng, uid, base=bS)
+            extra = None
+            if leaf and legacy and not spec["cache_hash"]:
+                extra = {"attrs": {"hash": False}, "define": {"unsafe_hash": False}}
+            flip = leaf or variant == "chain"
+            sS = _copy_spec(spec, bS, True if flip else spec["slots"])
+            cS = CUT2(sS, extra)
+            if cS.def_error and "No mandatory attributes" in cS.def_error[1]:
+                _fix_mandatory(spec)
+                sS = _copy_spec(spec, bS, True if flip else spec["slots"])
+                cS = CUT2(sS, extra)
+            if cS.def_error and not leaf:
+                continue            # bases must exist; rejected definitions are compared at the leaf only
+            if cS.def_error and "No mandatory attributes" in cS.def_error[1]:
+                continue
+            if flip:
+                cD = CUT2(_copy_spec(spec, bD, False), extra)
+            else:
+                cD = cS if bS is bD else CUT2(_copy_spec(spec, bD, spec["slots"]), extra)
+            if not leaf and cD.def_error:
+                continue
+            break
+        else:
+            return None
+        if leaf:
+            facts["legacy_hash_false"] = bool(extra)
+            chain, cb = [], bS
+            while cb is not None:
+                if not isinstance(cb, PlainOver):
+                    chain.append(cb.spec["cache_hash"])
+                cb = cb.base if isinstance(cb, PlainOver) else cb.spec["base"]
+            facts["cache_hash_in_base"] = any(chain)
+            facts["spec"] = _describe(cS)
+            return cS, cD, facts
+        bS, bD = cS, cD
+        if plain_between and level == depth - 2:
+            own = bS.cls.__dict__.get("__attrs_own_setattr__") is True and bD.cls.__dict__.get("__attrs_own_setattr__") is True
+            facts["k6_shape"] = bool(own)
+            pS = PlainOver(bS, uid, plain_slots)
+            bD = pS if bS is bD else PlainOver(bD, uid, plain_slots)
+            bS = pS
+    return None
+
+
+def _describe(c):
+    s = c.spec
+    d = {k: v for k, v in s.items() if k not in ("base", "_named_sig")}
+    b_ = s["base"]
+    if isinstance(b_, PlainOver):
+        d["base"] = {"plain_class_over": _describe(b_.base)}
+    else:
+        d["base"] = _describe(b_) if b_ is not None else None
+    return d
+
+
+def _outcome(fn):
+    try:
+        return ["ok", fn()]
+    except g.Marker as m:
+        return ["marker", m.idx]
+    except Exception as e:
+        return ["raised", type(e).__name__]
+
+
+def _state(cls, inst):
+    return [(a.name, "<unset>" if (v := getattr(inst, a.name, g.UNSET)) is g.UNSET else g.js_val(v)) for a in attr.fields(cls)]
+
+
+def _all_set(cls, inst):
+    return all(getattr(inst, a.name, g.UNSET) is not g.UNSET for a in attr.fields(cls))
+
+
+def _stable_values(cls, inst):
+    return all(isinstance(getattr(inst, a.name, None), OTok) or getattr(inst, a.name, None) is None for a in attr.fields(cls))
+
+
+def _pool_shapes(cut, seed):
+    rng = random.Random(seed)
+    counter = [0]
+    out = []
+    for pos, kw, kind in g.call_shapes(cut, rng, counter):
+        m = lambda v: POOLV[v.n % len(POOLV)] if isinstance(v, g.Tok) else v
+        out.append(([m(v) for v in pos], [(n, m(v)) for n, v in kw], kind))
+    return out
+
+
+def observe_build(cut, shape_seed):
+    """Everything the property lists as build-independent, as a dict label -> JSON-able value."""
+    obs = {}
+    obs["def"] = cut.def_error[0] if cut.def_error else "ok"
+    if cut.cls is None:
+        return obs
+    cls = cut.cls
+    g.REC.cls = cls
+    obs["sig"] = g.signature_of(cls)
+    obs["fields"] = [(a.name, a.init, bool(a.eq), bool(a.order), a.hash, a.kw_only, a.inherited, a.alias,
+                      a.default is attr.NOTHING, a.repr is not False, a.on_setattr is not None) for a in attr.fields(cls)]
+    shapes = _pool_shapes(cut, shape_seed)
+    insts = []
+    first_ok = None
+    for k, (pos, kw, kind) in enumerate(shapes):
+        _, js, n, inst = g.construct(cut, pos, kw)
+        obs["call:%d:%s" % (k, kind)] = js
+        if inst is not None:
+            insts.append(inst)
+            if first_ok is None:
+                first_ok = (pos, kw, n)
+    insts = insts[:5]
+    if first_ok is not None:
+        pos, kw, n = first_ok
+        obs["call:validators-off"] = g.construct(cut, pos, kw, validators_on=False)[1]
+        for k in range(min(n, 6)):
+            obs["fault:%d" % k] = g.construct(cut, pos, kw, fault_at=k)[1]
+    g.REC.reset()
+
+    def cmp_matrix(opf):
+        return [[_outcome(lambda: g.js_val(opf(a, b_))) for b_ in insts] for a in insts]
+    import operator
+    obs["eq"] = cmp_matrix(operator.eq)
+    obs["ne"] = cmp_matrix(operator.ne)
+    obs["order"] = [cmp_matrix(f) for f in (operator.lt, operator.le, operator.gt, operator.ge)]
+    hs = [_outcome(lambda x=x: hash(x)) for x in insts]
+    obs["hash"] = {"outcome": [h[0] if h[0] != "raised" else h[1] for h in hs],
+                   "partition": [[(hs[i][1] == hs[j][1]) if hs[i][0] == "ok" and hs[j][0] == "ok" else None
+                                  for j in range(len(insts))] for i in range(len(insts))]}
+    obs["repr"] = [_outcome(lambda x=x: repr(x)) for x in insts]
+    obs["asdict"] = [_outcome(lambda x=x: [(k_, g.js_val(v)) for k_, v in attr.asdict(x, recurse=False).items()]) for x in insts]
+    obs["astuple"] = [_outcome(lambda x=x: [g.js_val(v) for v in attr.astuple(x, recurse=False)]) for x in insts]
+    if first_ok is not None:
+        pos, kw, _n = first_ok
+
+        def fresh():
+            inst = cls(*pos, **dict(kw))
+            g.REC.reset()
+            return inst
+        for a in attr.fields(cls):
+            inst = fresh()
+            r = _outcome(lambda: setattr(inst, a.name, POOLV[3]))
+            obs["assign:" + a.name] = [r, [g.js_event(e) for e in g.REC.trace], _state(cls, inst)]
+            inst = fresh()
+            r = _outcome(lambda: delattr(inst, a.name))
+            obs["del:" + a.name] = [r, _state(cls, inst)]
+            if a.init:
+                inst = fresh()
+                r = _outcome(lambda: _state(cls, attr.evolve(inst, **{a.alias: POOLV[2]})))
+                obs["evolve:" + a.name] = [r, [g.js_event(e) for e in g.REC.trace]]
+        inst = fresh()
+        r = _outcome(lambda: _state(cls, attr.evolve(inst)))
+        obs["evolve:"] = [r, [g.js_event(e) for e in g.REC.trace]]
+        inst = fresh()
+        if _all_set(cls, inst):
+            stable = _stable_values(cls, inst)
+
+            def after(res):
+                return [type(res) is cls, _state(cls, res), _outcome(lambda: g.js_val(res == inst))]
+
+            def hash_kept(res):
+                return _outcome(lambda: hash(res) == hash(inst))
+            for opname, opf in (("copy", copy.copy), ("deepcopy", copy.deepcopy)):
+                r = _outcome(lambda: opf(inst))
+                obs[opname] = [r[0], after(r[1])] if r[0] == "ok" else r
+                if r[0] == "ok" and stable:
+                    obs["hashkept:" + opname] = hash_kept(r[1])
+            had = getattr(g, cls.__name__, None)
+            setattr(g, cls.__name__, cls)
+            try:
+                r = _outcome(lambda: pickle.loads(pickle.dumps(inst)))
+                obs["pickle"] = [r[0], after(r[1])] if r[0] == "ok" else r
+                if r[0] == "ok" and stable:
+                    obs["hashkept:pickle"] = hash_kept(r[1])
+            finally:
+                if had is None:
+                    delattr(g, cls.__name__)
+                else:
+                    setattr(g, cls.__name__, had)
+    g.REC.reset()
+    g.REC.cls = None
+    return obs
+
+
+def _digest(v):
+    s = json.dumps(v, sort_keys=True, default=str)
+    return int(hashlib.sha1(s.encode()).hexdigest()[:15], 16)
+
+
+def meta_case(seed, index):
+    rng = random.Random(seed * 1000003 + index)
+    pair = None
+    for _ in range(20):
+        pair = build_pair(rng)
+        if pair is not None:
+            break
+    inp = {"family": "meta", "seed": seed, "index": index}
+    if pair is None:
+        return Case("(CMeta [])", inp, {"note": "no definable specification"}, sig={"kind": "slots-dict-disagree"},
+                    nontrivial=False, key="meta:%d:%d" % (seed, index))
+    cS, cD, facts = pair
+    shape_seed = rng.randrange(1 << 30)
+    oS = observe_build(cS, shape_seed)
+    oD = observe_build(cD, shape_seed)
+    if _digest(oS.get("hash")) != _digest(oD.get("hash")):
+        # whether the copy keeps the hash is only comparable when the two builds hash alike
+        for o in (oS, oD):
+            for l in [l for l in o if l.startswith("hashkept:")]:
+                del o[l]
+    labels = sorted(set(oS) | set(oD))
+    triples, differing = [], {}
+    for l in labels:
+        a, d = oS.get(l, "<absent>"), oD.get(l, "<absent>")
+        da, dd = _digest(a), _digest(d)
+        triples.append("(%s, %d%%Z, %d%%Z)" % (q(l), da, dd))
+        if da != dd:
+            differing[l] = {"slots": a, "dict": d}
+    kinds = sorted(set(l.split(":")[0] for l in differing))
+    ser = [k for k in kinds if k in ("copy", "deepcopy", "pickle", "hashkept")]
+    hooksS = sum(json.dumps(v["slots"]).count('["hook"') for v in differing.values())
+    hooksD = sum(json.dumps(v["dict"]).count('["hook"') for v in differing.values())
+    sig = {"kind": "slots-dict-disagree", "differs": "+".join(k for k in kinds if k not in ser),
+           "serialization_differs": bool(ser), "legacy_hash_false": facts["legacy_hash_false"],
+           "k6_shape": facts["k6_shape"], "extra_hook_events_in_slots_build": hooksS > hooksD,
+           "is_exception_class": bool(cS.cls is not None and issubclass(cS.cls, BaseException)),
+           "cache_hash_in_base": facts["cache_hash_in_base"]}
+    if "hash" in differing:
+        sig["hash_slots"] = "+".join(sorted(set(map(str, differing["hash"]["slots"]["outcome"]))))
+        sig["hash_dict"] = "+".join(sorted(set(map(str, differing["hash"]["dict"]["outcome"]))))
+    seen = {"differing": differing, "labels": len(labels), "facts": {k: v for k, v in facts.items() if k != "spec"},
+            "spec": facts.get("spec")}
+    nfields = len(attr.fields(cS.cls)) if cS.cls is not None else 0
+    return Case("(CMeta %s)" % lst(triples), inp, seen, sig=sig, nontrivial=nfields > 0,
+                key="meta:%d:%d" % (seed, index))
 
 
 # --------------------------------------------------------------------------------------
@@ -912,11 +1277,23 @@ def generate(tier, seed):
             _dist["member " + m["kind"]] += 1
         if len(cs) > 1:
             _dist["body property cases"] += 1
+    n_meta = 500 if tier == "quick" else 5000
+    for k in range(n_meta):
+        c = meta_case(seed, k)
+        cases.append(c)
+        _dist["meta"] += 1
+        _dist["meta variant=" + str(c.seen.get("facts", {}).get("variant"))] += 1
+        if c.seen.get("facts", {}).get("k6_shape"):
+            _dist["meta k6 shape"] += 1
+        if c.seen.get("facts", {}).get("legacy_hash_false"):
+            _dist["meta legacy hash=False"] += 1
     return cases
 
 
 def rerun(inp):
     fam = inp.get("family")
+    if fam == "meta":
+        return meta_case(inp["seed"], inp["index"])
     if fam == "body":
         return run_body(inp)[0]
     if fam == "body-post":
